@@ -55,7 +55,7 @@ class BcWorld(World):
         "a dof constrained several times holds the sum of the entered values (documented convention of the elimination solver); duplicates are generated next to Lagrange conditions too",
         "iterative back ends are called with SciPy's default rtol=1e-5: residual and forward error bounds are scaled by it and by the measured condition number; runs with kappa > 1e9 are discarded",
     ]
-    ACTORS = ["Elastic", "Elastic", "Thermal", "Beam", "HyperElastic"]
+    ACTORS = ["Elastic", "Elastic", "Thermal", "Beam", "HyperElastic", "WeakForms"]
 
     @classmethod
     def gen_config(cls, rng, tier, faults):
@@ -74,6 +74,8 @@ class BcWorld(World):
         dim = 3 if (actor in ("Elastic", "Thermal") and rng.random() < 0.2) else 2
         maxNn = 30 if actor == "HyperElastic" else (40 if tier == "quick" else 70)
         cands = [n for n in meshlib.names(dim=dim) if lib[n].Nn <= maxNn]
+        if actor == "WeakForms":
+            cands = [n for n in cands if lib[n].main[0][0] in ("TRI3", "QUAD4", "TRI6")]
         if actor == "HyperElastic":
             cands = [n for n in cands if lib[n].main[0][0] in ("TRI3", "QUAD4")]
         kinds = simlib.SIM_MODEL[actor]
@@ -107,7 +109,7 @@ class BcWorld(World):
                     ctx.probe("mesh_with_orphan_nodes")
                 self._coord = coord
                 mesh = meshlib.build(raw, coord=coord)
-                self.model = simlib.make_model(cfg["kind"], cfg["params"])
+                self.model = simlib.make_weakforms(mesh, cfg["params"]) if cfg["kind"].startswith("wf_") else simlib.make_model(cfg["kind"], cfg["params"])
                 self.sim = simlib.make_sim(self.actor, mesh, self.model)
                 self.dim = cfg["dim"]
                 self.tags = simlib.boundary_tags(raw)
